@@ -316,13 +316,16 @@ class Unpivot(Proc):
             names = all_field_names(desc) or ['a']
             pick = rng.sample(names, rng.randint(1, min(2, len(names))))
             ufs = [{'name': n, 'keys': {'k': n, 'n': i}} for i, n in enumerate(pick)]
+            if len(ufs) > 1 and rng.random() < 0.5:
+                # the specifications need not derive the same keys: a later one with fewer keys, or other ones
+                ufs[-1]['keys'] = rng.choice([{'k': pick[-1]}, {'m': 'only'}, {}])
             regex = False
-            eks = [{'name': 'k', 'type': 'string'}, {'name': 'n', 'type': 'integer'}]
+            eks = [{'name': 'k', 'type': 'string'}, {'name': 'n', 'type': 'integer'}, {'name': 'm', 'type': 'string'}]
         else:
             ufs = [{'name': rng.choice(['a.*', '[ab]', 'a|b', '(a)(.*)']), 'keys': {'k': 'f_\\g<0>'}},
-                   {'name': rng.choice(['b', 'x_y', 'year2000']), 'keys': {'k': 'second'}}]
+                   {'name': rng.choice(['b', 'x_y', 'year2000']), 'keys': rng.choice([{'k': 'second'}, {'k': 'second'}, {'k2': 'second'}, {}])}]
             regex = True
-            eks = [{'name': 'k', 'type': 'string'}]
+            eks = [{'name': 'k', 'type': 'string'}, {'name': 'k2', 'type': 'string'}]
         return {'unpivot_fields': ufs, 'extra_keys': eks, 'extra_value': {'name': 'value', 'type': 'any'},
                 'regex': regex, 'sel': gen_sel(rng, res_names(desc))}
 
